@@ -1,4 +1,4 @@
-CONSTANT Cfgs <- CfgList
+CONSTANT Cfgs <- CfgSet
 SPECIFICATION Spec
 INVARIANTS TypeOK ChannelOk WriteBound
 CONSTRAINT Survey
